@@ -10,7 +10,7 @@ from tir import declared, strip
 CONTAINERS = ["Data", "PortData", "Frame"]
 
 
-def container_rule(F, rep, M):
+def container_rule(F, rep, M, fams=("mutable", "immutable")):
     frame_wc = L.x_with_capacity(F.body("frame::mutable::Frame::with_capacity"))
     gates = {}
     for it in frame_wc:
@@ -18,7 +18,7 @@ def container_rule(F, rep, M):
             for l in L.tree_leaves(it[2]):
                 gates[l["field"]] = it[1]
     n = 0
-    for fam in ("mutable", "immutable"):
+    for fam in fams:
         for c in CONTAINERS:
             fn = "frame::%s::%s::transpose_one" % (fam, c)
             b = F.body(fn)
@@ -52,7 +52,7 @@ def container_rule(F, rep, M):
                         fn, f, L.fstr(g) if g else "no gate", L.fstr(wg) if wg else "no gate"), l.get("sp", ""))
                 if c == "PortData" and f == "follower":
                     rep.ob("L3.optional", bool(l.get("opt")), fn, "follower.opt", "%s: follower must be mapped through the Option" % fn)
-    rep.floor("container row views", n, 6)
+    rep.floor("container row views", n, 3 * len(fams))
 
 
 def forwarders(F, rep):
